@@ -19,6 +19,22 @@ theorem eof_rem_zero (P : AesPrims) (hW : P.WF) {σ} (S : Src σ) {L : Nat} (hL 
   | inl h0 => omega
   | inr hp => have := hpos hn hp; simp at hol; omega
 
+/-- … and finalized: the authentication code has been read and compared, also when the entry has no
+ciphertext at all (then by this very call). -/
+theorem eof_finalized (P : AesPrims) (hW : P.WF) {σ} (S : Src σ) {L : Nat} (hL : L < U64)
+    {v v' : Valid σ} (hI : Inv P L v) {n : Nat} (hn : 0 < n)
+    (h : Valid.read P S v n = (.ok [], v')) : v'.finalized = true := by
+  have sp := read_spec P hW S hL v hI n
+  rw [h] at sp
+  obtain ⟨bs, _, _, _, _, _, hol, hpos, hsame, _⟩ := sp.ok [] rfl
+  have hsame : v.dataRemaining = 0 → v.finalized = true → v' = v := hsame
+  cases Nat.eq_zero_or_pos v.dataRemaining with
+  | inr hp => have := hpos hn hp; simp at hol; omega
+  | inl h0 =>
+    cases hf : v.finalized with
+    | true => have : v' = v := hsame h0 hf; rw [this]; exact hf
+    | false => exact (sp.emp [] rfl h0 hf).1
+
 /-- A property of the AES reader that successful `read` calls preserve and that implies `Inv`. -/
 structure OkStable (P : AesPrims) {σ} (S : Src σ) (L : Nat) (Q : Valid σ → Prop) : Prop where
   step : ∀ v n out v', Q v → Valid.read P S v n = (.ok out, v') → Q v'
@@ -57,7 +73,7 @@ theorem runDec_ok {δ} (d0 : δ) (t : DecStep δ) (ht : t.Faithful) :
     | panic m => simp at h
 
 theorem copyToSink_ok : ∀ (f : Nat) (v v' : Valid σ), Q v → copyToSink P S f v = (.ok (), v') →
-    Q v' ∧ v'.dataRemaining = 0 := by
+    Q v' ∧ v'.dataRemaining = 0 ∧ v'.finalized = true := by
   intro f
   induction f with
   | zero => intro v v' _ h; simp [copyToSink] at h
@@ -76,7 +92,8 @@ theorem copyToSink_ok : ∀ (f : Nat) (v v' : Valid σ), Q v → copyToSink P S 
         subst h
         have hbs : bs = [] := by simpa using hb
         subst hbs
-        exact ⟨hQ.step _ _ _ _ hq hr, eof_rem_zero P hW S hL (hQ.inv _ hq) (by decide) hr⟩
+        exact ⟨hQ.step _ _ _ _ hq hr, eof_rem_zero P hW S hL (hQ.inv _ hq) (by decide) hr,
+          eof_finalized P hW S hL (hQ.inv _ hq) (by decide) hr⟩
       · rw [if_neg hb] at h
         exact ih v1 v' (hQ.step _ _ _ _ hq hr) h
     | err e => simp at h
@@ -111,7 +128,8 @@ theorem layersRead_ok {δ H} (D : Decoder δ) (hD : D.Faithful) (upd : H → Byt
 theorem entryRead_ok {δ H} (D : Decoder δ) (hD : D.Faithful) (compressing : Bool) (upd : H → Bytes → H)
     (fin : H → UInt32) (st st' : EntrySt σ δ H) (n : Nat) (out : Bytes) (hq : Q st.aes)
     (h : entryRead P S D compressing upd fin st n = (.ok out, st')) :
-    Q st'.aes ∧ (compressing = true → out = [] → 0 < n → st'.aes.dataRemaining = 0) := by
+    Q st'.aes ∧ (compressing = true → out = [] → 0 < n →
+      st'.aes.dataRemaining = 0 ∧ st'.aes.finalized = true) := by
   unfold entryRead at h
   cases hl : layersRead P S D upd fin st n with
   | mk r st1 =>
@@ -173,7 +191,8 @@ theorem entryDrain_ok {δ H} (D : Decoder δ) (hD : D.Faithful) (compressing : B
 /-- `Stored`: the entry's `Ok(0)` for a non-empty buffer is the AES reader's. -/
 theorem entryRead_stored_eof {δ H} (D : Decoder δ) (hS : D.StoredLike) (upd : H → Bytes → H) (fin : H → UInt32)
     (st st' : EntrySt σ δ H) (n : Nat) (hn : 0 < n) (hq : Q st.aes)
-    (h : entryRead P S D false upd fin st n = (.ok [], st')) : st'.aes.dataRemaining = 0 := by
+    (h : entryRead P S D false upd fin st n = (.ok [], st')) :
+    st'.aes.dataRemaining = 0 ∧ st'.aes.finalized = true := by
   unfold entryRead at h
   cases hl : layersRead P S D upd fin st n with
   | mk r st1 =>
@@ -206,7 +225,7 @@ theorem entryRead_stored_eof {δ H} (D : Decoder δ) (hS : D.StoredLike) (upd : 
         obtain ⟨hb, hs⟩ := hl
         subst hb
         rw [← hs]
-        exact eof_rem_zero P hW S hL (hQ.inv _ hq) hn hr
+        exact ⟨eof_rem_zero P hW S hL (hQ.inv _ hq) hn hr, eof_finalized P hW S hL (hQ.inv _ hq) hn hr⟩
     | err e => simp at hl
     | panic m => simp at hl
   | err e => simp at h
